@@ -1124,11 +1124,137 @@ func scOrder(r *h.Rng) *prog {
 	return p
 }
 
+// the label set of a statement is taken when the statement STARTS: script code run by its header (the
+// for-in source, the while test, …) must not swallow it.  `L: for (k in f()) { … continue L … }`
+func scLabelCapture(r *h.Rng) *prog {
+	p := &prog{}
+	p.v("o", "n", "i", "k", "cnt")
+	// functions whose bodies contain blocks / loops / labelled statements of their own
+	p.decl("src", m.Fn{Name: "src", Vars: []string{"j"}, Body: []m.N{
+		inc("cnt", 1), m.X(m.Asg("j", m.Num(0))),
+		m.Label("Z", m.While(m.Lt(m.Var("j"), m.Num(2)), []m.N{inc("j", 1), m.If(m.Seq(m.Var("j"), m.Num(1)), []m.N{m.Continue("Z")}, nil)})),
+		m.Block(m.X(m.Num(0))), m.Ret(m.Var("o"))}})
+	p.decl("C", m.Fn{Name: "C", Body: []m.N{m.Block(m.X(m.Set(m.This(), "a", m.Num(1)))), m.X(m.Set(m.This(), "b", m.Num(2)))}})
+	p.decl("tst", m.Fn{Name: "tst", Body: []m.N{m.Block(inc("i", 1)), m.Ret(m.Lt(m.Var("i"), m.Num(4)))}})
+	nk := 2 + r.Intn(2)
+	var ps []m.Prop
+	for _, k := range keyU[:nk] {
+		ps = append(ps, m.Prop{K: k, V: m.Num(1)})
+	}
+	p.add(m.X(m.Asg("o", m.Obj(ps...))), m.X(m.Asg("n", m.Num(0))), m.X(m.Asg("i", m.Num(0))), m.X(m.Asg("cnt", m.Num(0))))
+	j := 1 + r.Intn(3)
+	var ex m.N
+	switch r.Intn(4) {
+	case 0, 1:
+		ex = m.Continue("L")
+	case 2:
+		ex = m.Break("L")
+	default:
+		ex = m.Continue("")
+	}
+	cond := m.If(m.Seq(m.Var("n"), m.Num(j)), []m.N{ex}, nil)
+	if ex.SX != m.Continue("").SX && r.Bool() { // from inside a nested loop (a plain continue would spin in it)
+		cond = m.While(m.Lt(m.Var("n"), m.Num(100)), []m.N{cond, m.Break("")})
+	}
+	body := []m.N{inc("n", 1), cond, lg(m.Add(m.Str("b"), m.Var("n")))}
+	var src m.N
+	switch r.Intn(4) {
+	case 0:
+		src = m.CallV("src")
+	case 1:
+		src = m.New(m.Var("C"))
+	case 2:
+		src = m.Get(m.Obj(m.Prop{K: "q", V: m.CallV("src")}), "q")
+	default:
+		src = m.Call(m.Fn{Body: []m.N{m.Label("Y", m.Block(m.Break("Y"))), m.Ret(m.Var("o"))}}.Expr())
+	}
+	var loop m.N
+	switch r.Intn(3) {
+	case 0, 1:
+		loop = m.ForIn(r.Bool(), "k", src, body...)
+	default:
+		loop = m.While(m.CallV("tst"), body)
+	}
+	loop = m.Label("L", loop)
+	if r.Bool() {
+		loop = m.Label("M", loop)
+	}
+	if r.Bool() { // inside a function: a stray completion would end the function
+		p.decl("run", m.Fn{Name: "run", Vars: []string{"k"}, Body: []m.N{loop, lg(m.Str("after-loop")), m.Ret(m.Var("n"))}})
+		p.add(lg(m.CallV("run")))
+	} else {
+		p.add(loop, lg(m.Str("after-loop")))
+	}
+	p.add(lg(m.Var("n")), lg(m.Var("cnt")), lg(m.Var("i")))
+	return p
+}
+
+// an indirect eval whose code exits abnormally must leave no scope behind: locals, `this`, closures and
+// further calls afterwards, with the exception caught in the same function, in a caller, or at top level
+func scEvalThrow(r *h.Rng) *prog {
+	p := &prog{}
+	p.v("x", "o", "keep")
+	p.add(m.X(m.Asg("x", m.Str("G"))))
+	var bad []m.N
+	switch r.Intn(4) {
+	case 0:
+		bad = []m.N{m.Throw(m.Str("T"))}
+	case 1:
+		bad = []m.N{m.X(m.Var("nowhere"))}
+	case 2:
+		bad = []m.N{m.X(m.CallV("x"))} // TypeError: not a function
+	default:
+		bad = []m.N{lg(m.Str("in-eval")), m.X(m.Get(m.Undef(), "p"))}
+	}
+	ev := func() m.N {
+		pad := make([]m.N, r.Intn(2)) // varies the spelling of the indirect call
+		for i := range pad {
+			pad[i] = m.X(m.Num(i))
+		}
+		return m.X(m.EvalI(nil, nil, append(pad, bad...)))
+	}
+	after := []m.N{lg(m.Var("x")), lg(m.Var("loc")), lg(m.Get(m.This(), "tag")),
+		m.X(m.Asg("keep", m.Fn{Body: []m.N{m.Ret(m.Add(m.Var("loc"), m.Var("x")))}}.Expr())), lg(m.CallV("keep")),
+		lg(m.CallV("helper", m.Num(1))), m.X(m.Asg("loc", m.Add(m.Var("loc"), m.Str("!")))), lg(m.Var("loc"))}
+	p.decl("helper", m.Fn{Name: "helper", Params: []string{"a"}, Vars: []string{"x"}, Body: []m.N{m.X(m.Asg("x", m.Str("H"))), m.Ret(m.Add(m.Var("x"), m.Var("a")))}})
+	where := r.Intn(3)
+	switch where {
+	case 0: // caught in the same function
+		body := []m.N{m.X(m.Asg("x", m.Str("L"))), m.X(m.Asg("loc", m.Str("loc"))),
+			m.Try([]m.N{ev(), lg(m.Str("unreached"))}, "e", []m.N{lg(m.Typeof(m.Var("e")))}, nil, true, false)}
+		body = append(body, after...)
+		body = append(body, m.Ret(m.Var("loc")))
+		p.decl("f", m.Fn{Name: "f", Vars: []string{"x", "loc"}, Body: body})
+	case 1: // caught in the caller
+		p.decl("thrower", m.Fn{Name: "thrower", Vars: []string{"x", "z"}, Body: []m.N{m.X(m.Asg("x", m.Str("TH"))), ev(), m.Ret(m.Str("unreached"))}})
+		body := []m.N{m.X(m.Asg("x", m.Str("L"))), m.X(m.Asg("loc", m.Str("loc"))),
+			m.Try([]m.N{lg(m.CallV("thrower"))}, "e", []m.N{lg(m.Typeof(m.Var("e")))}, nil, true, false)}
+		body = append(body, after...)
+		body = append(body, m.Ret(m.Var("loc")))
+		p.decl("f", m.Fn{Name: "f", Vars: []string{"x", "loc"}, Body: body})
+	default: // caught by try/finally only, then by the top level
+		body := []m.N{m.X(m.Asg("x", m.Str("L"))), m.X(m.Asg("loc", m.Str("loc"))),
+			m.Try([]m.N{ev()}, "", nil, after, false, true), m.Ret(m.Str("unreached"))}
+		p.decl("f", m.Fn{Name: "f", Vars: []string{"x", "loc"}, Body: body})
+	}
+	p.add(m.X(m.Asg("o", m.Obj(m.Prop{K: "tag", V: m.Str("O")}, m.Prop{K: "f", V: m.Var("f")}))))
+	call := lg(m.MCall(m.Var("o"), "f"))
+	p.add(m.Try([]m.N{call}, "e", []m.N{lg(m.Add(m.Str("top:"), m.Typeof(m.Var("e"))))}, nil, true, false))
+	// the top level continues in the global scope with its own bindings
+	p.add(lg(m.Var("x")), lg(m.Typeof(m.Var("loc"))), lg(m.CallV("helper", m.Num(2))),
+		m.Try([]m.N{ev()}, "e", []m.N{lg(m.Str("top2"))}, nil, true, false), lg(m.Var("x")), lg(m.Typeof(m.This())))
+	if r.Bool() {
+		p.add(m.Try([]m.N{call}, "e", []m.N{lg(m.Str("again"))}, nil, true, false))
+	}
+	return p
+}
+
 func init() {
 	fnScenarios = append(fnScenarios, []fnScenario{
 		{"with-lookup", scWithLookup}, {"with-closure", scWithClosure}, {"with-this", scWithThis}, {"with-var", scWithVar},
 		{"with-delete", scWithDelete}, {"with-nested", scWithNested}, {"with-exit", scWithExit}, {"with-null", scWithNull},
 		{"forin-chain", scForInChain}, {"forin-special", scForInSpecial}, {"forin-return", scForInReturn}, {"forin-labels", scForInLabels},
 		{"forin-delete", scForInDelete}, {"forin-revisit", scForInRevisit}, {"forin-empty", scForInEmpty}, {"forin-with", scForInWith}, {"forin-value", scForInValue},
-		{"labels", scLabels}, {"dup-params", scDupParams}, {"order", scOrder}}...)
+		{"labels", scLabels}, {"dup-params", scDupParams}, {"order", scOrder},
+		{"label-capture", scLabelCapture}, {"eval-throw", scEvalThrow}}...)
 }
